@@ -1,3 +1,5 @@
+//go:build !kq
+
 package main
 
 import (
@@ -233,6 +235,24 @@ func analyse(x *Exec) *RunResult {
 		}
 		ok := s.run()
 		cnt["search_nodes"] += s.nodes
+		if x.sc.Family == "concurrent" && !aborted && len(s.calls)+len(s.L) <= 120 {
+			switch porcupineCheck(x, wr, s) {
+			case "Ok":
+				cnt["porcupine_ok"]++
+			case "Illegal":
+				cnt["porcupine_illegal"]++
+				if ok {
+					// the weaker checker rejects what the stronger one accepted: one of them is wrong
+					res.Inconcl = "oracle-disagreement"
+					cnt["oracle_disagreement"]++
+				} else {
+					add(Violation{Kind: "not-linearizable", Watcher: wr.Idx, Site: "porcupine", Detail: "porcupine: the results of the Add/Remove/WatchList/Close calls are not consistent with any sequential order against the reference model; " + strings.Join(s.best.reasons, " || ")})
+				}
+			default:
+				cnt["porcupine_unknown"]++
+				res.Inconcl = "porcupine-unknown"
+			}
+		}
 		if !ok {
 			if s.nodes > s.limit {
 				res.Inconcl = "search-budget"
